@@ -493,6 +493,7 @@ def fetchAndProcess (ph : Phys) (readp spanp : Bool) : Nat → M Int
           let (r, _) ← fetchHeaders ph (some og)
           if r ≠ 0 then return r
           modify fun vf => { vf with ready := STREAMSET, infos := #[infoOf ph vf.os.serial],
+                                     hs := if vf.hs = 1 ∧ (infoOf ph vf.os.serial).bs0 > 64 then 1 else 0,
                                      current_serialno := vf.os.serial, current_link := vf.current_link + 1 }
           -- (the page in hand went into the stream inside _fetch_headers: `continue`, not a second pagein)
           fetchAndProcess ph readp spanp fuel
@@ -807,8 +808,8 @@ def pcmSeek (ph : Phys) (rawSeekF : Int → M Int) (pos : Int) : M Int := do
     | 0 => modify fun vf => { vf with pcm_offset := FUEL }
     | f + 1 => do
         let vf ← get
-        if ¬ (vf.pcm_offset < shl (shr pos vf.hs) vf.hs) then return ()
         let target := shr (pos - vf.pcm_offset) vf.hs
+        if target ≤ 0 then return ()
         match vf.vd with
         | none => return ()
         | some d =>
@@ -844,20 +845,28 @@ def timeSeek (seekF : Int → M Int) (seconds : Float) : M Int := do
   | none => return OV_EINVAL
   | some t => seekF t
 
-/-- `ov_halfrate` -/
-def halfrate (ph : Phys) (flag : Bool) : M Int := do
-  let vf ← get
-  if vf.infos.size = 0 then return OV_EINVAL
+/-- the flag-setting loop of `ov_halfrate` (with its roll-back): the new flag and whether the call is refused -/
+def halfrateFlags (vf : VF) (flag : Bool) : Nat × Bool :=
   let refused := flag ∧ ((List.range vf.links).any fun i => vf.infos[i]!.bs0 ≤ 64)
-  set { vf with hs := if flag ∧ !refused then 1 else 0 }
+  (if flag ∧ !refused then 1 else 0, refused)
+
+/-- the second half of `ov_halfrate`: with the flags set, dump the decoder and recover the position -/
+def halfrateRebuild (ph : Phys) (hs' : Nat) : M Unit := do
+  modify fun vf => { vf with hs := hs' }
   let vf ← get
   if vf.ready > STREAMSET then
     set { vf with vd := none, lapped := false, ready := STREAMSET }
     if vf.pcm_offset ≥ 0 then
-      let pos := vf.pcm_offset
+      let pos := if vf.seekable ∧ vf.pcm_offset > pcmTotal vf (-1) then pcmTotal vf (-1) else vf.pcm_offset
       modify fun vf => { vf with pcm_offset := -1 }
       let _ ← pcmSeek ph (rawSeek ph) pos
-  return (if refused then OV_EINVAL else 0)
+
+/-- `ov_halfrate` -/
+def halfrate (ph : Phys) (flag : Bool) : M Int := do
+  let vf ← get
+  if vf.infos.size = 0 then return OV_EINVAL
+  halfrateRebuild ph (halfrateFlags vf flag).1
+  return (if (halfrateFlags vf flag).2 then OV_EINVAL else 0)
 
 /-- `_ov_initset` -/
 def initset (ph : Phys) : Nat → M Int
